@@ -1,9 +1,206 @@
-import Ivg.Model.Decoder
-import Ivg.Model.Arc
-import Ivg.Model.MdIcons
+import Ivg.Lemmas.Decoder2
 import Ivg.Gen.Tie
 import Ivg.Obligations
-/-! # Property C02 — theorems (work in progress: tie obligations only so far) -/
+/-!
+# C02 — decoding is total, linear, delivers nothing before the metadata is valid, and is prefix-monotone
+
+Property text: "For every byte string, Decode (into a Renderer, an Encoder or a plain recorder),
+DecodeViewBox and Disassemble terminate without panicking, leave the input unmodified, and either
+succeed or return a DecodeError. Nothing is delivered to the destination unless the magic and every
+metadata chunk were valid; the first delivered call is Reset; every delivered call consumed at least
+one input byte (so work and rasteriser activity are linear in input length, at most four curve
+segments per drawing operation); and the calls delivered for any prefix of an input are a prefix of
+the calls delivered for the whole input."
+
+The theorems are about the executable model `Ivg.Dec` (one traversal `decodeCore` serving `decode`,
+`decodeViewBox`, `disassemble`), tied to /repo by the differential suite and `Ivg.Gen.Tie`.
+
+By construction (no theorem): the three entry points are total Lean functions on every `Bytes`
+value, pure (the input cannot be modified; on the Go side the write frame is
+`Ivg.Gen.Tie.param_writes_frame`), and their failure value has type `DecErr`, whose thirteen
+constructors are the thirteen `DecodeError` values (`Ivg.Gen.Tie.errorStrings_tie`).  The model
+loops carry a fuel argument; `loop_terminates` / `chunks_terminate` show the fuel the entry points
+supply (input length + 1) is never exhausted, because every instruction and every chunk consumes at
+least one byte (`instruction_consumes`).  The destination is abstract: `decode` returns the list of
+`Call`s a recording destination receives, which is what any destination (Renderer, Encoder) is fed.
+
+`MetaOk {} src hdr m rest` (Lemmas/Decoder2) reads: the magic identifier, the chunk count and every
+metadata chunk of `src` are valid, they are printed as `hdr`, yield metadata `m` and leave `rest`.
+-/
 namespace Ivg.Props.C02
+open Ivg Num Dec DecL
+
+/-- a small icon: viewBox chunk, palette chunk, a path `M 0 0 l 8 8 16 -8 z` -/
+def exIcon : Bytes :=
+  [0x89, 0x49, 0x56, 0x47, 0x04, 0x0a, 0x00, 0x50, 0x50, 0xb0, 0xb0, 0x08, 0x02, 0x01, 0x7c, 0x80,
+   0xc0, 0x80, 0x80, 0x21, 0x90, 0x90, 0xa0, 0x70, 0xe1]
+
+set_option maxRecDepth 100000 in
+example : (decode [] exIcon).2 = none ∧ (decode [] exIcon).1.length = 5 := by decide +kernel
+
+/-! ## termination -/
+
+/-- Clause "terminate": with more fuel than input bytes the instruction loop's result does not depend
+    on the fuel, i.e. the bound `len(src)+1` that `decodeCore` supplies is never reached. -/
+theorem loop_terminates (f1 f2 : Nat) (m : DMode) (src : Bytes) (h1 : src.length < f1) (h2 : src.length < f2) :
+    loop f1 m src = loop f2 m src := loop_fuel_irrelevant f1 f2 m src h1 h2
+example : ([0xc0, 0x80, 0x80] : Bytes).length < 4 ∧ ([0xc0, 0x80, 0x80] : Bytes).length < 100 := by decide
+
+/-- … same for the metadata-chunk loop. -/
+theorem chunks_terminate (f1 f2 n : Nat) (m : Metadata) (minMID : Nat) (src : Bytes)
+    (h1 : src.length < f1) (h2 : src.length < f2) :
+    decodeChunks f1 n m minMID src = decodeChunks f2 n m minMID src :=
+  decodeChunks_fuel_irrelevant f1 f2 n m minMID src h1 h2
+example : ([0x0a, 0x00, 0x50, 0x50, 0xb0, 0xb0] : Bytes).length < 7 := by decide
+
+/-- The loop in unfolded form: one instruction, then the loop (with its canonical fuel) on the rest. -/
+theorem loop_unfold (m : DMode) (src : Bytes) (hne : src ≠ []) :
+    loop (src.length + 1) m src = match stepDec m src with
+      | (its, .error e) => (its, some e)
+      | (its, .ok (m', rest)) =>
+        (its ++ (loop (rest.length + 1) m' rest).1, (loop (rest.length + 1) m' rest).2) :=
+  loop_step hne
+example : ([0xe1] : Bytes) ≠ [] := by decide
+
+/-- The termination argument: every successfully decoded instruction consumed a NON-EMPTY prefix of
+    the remaining input (and printed exactly those bytes) … -/
+theorem instruction_consumes (m : DMode) (src : Bytes) (its : List Item) (m' : DMode) (rest : Bytes)
+    (h : stepDec m src = (its, .ok (m', rest))) :
+    ∃ pre, pre ≠ [] ∧ src = pre ++ rest ∧ (linesOf its).flatMap (·.bytes) = pre :=
+  stepDec_consumes h
+set_option maxRecDepth 100000 in
+example : ∃ its, stepDec .styling [0xc0, 0x80, 0x80, 0xe1] = (its, .ok (.drawing, [0xe1])) :=
+  ⟨(stepDec .styling [0xc0, 0x80, 0x80, 0xe1]).1, by decide +kernel⟩
+
+/-- … so does every accepted metadata chunk. -/
+theorem chunk_consumes (m : Metadata) (minMID : Nat) (src : Bytes) (its : List Item) (m' : Metadata)
+    (mm' : Nat) (rest : Bytes) (h : decodeMetadataChunk m minMID src = (its, .ok (m', mm', rest))) :
+    ∃ pre, pre ≠ [] ∧ src = pre ++ rest ∧ (linesOf its).flatMap (·.bytes) = pre := by
+  obtain ⟨pre, h1, h2, h3, _⟩ := decodeMetadataChunk_consumes h
+  exact ⟨pre, h1, h2, h3⟩
+set_option maxRecDepth 100000 in
+example : ∃ its m', decodeMetadataChunk {} 0 [0x0a, 0x00, 0x50, 0x50, 0xb0, 0xb0, 0x77] = (its, .ok (m', 1, [0x77])) :=
+  ⟨(decodeMetadataChunk {} 0 [0x0a, 0x00, 0x50, 0x50, 0xb0, 0xb0, 0x77]).1, ⟨⟨-24, -24, 24, 24⟩, defaultPalette⟩,
+    by decide +kernel⟩
+
+/-! ## linearity: every delivered call consumed at least one input byte -/
+
+/-- Clause "every delivered call consumed at least one input byte", per instruction: a successful
+    instruction delivers at least one call and at most as many calls as it consumed bytes (a
+    repetition of a drawing opcode has ≥ 2 operand bytes, `z` is its opcode byte, single-call
+    instructions own their opcode byte) … -/
+theorem instruction_calls_le_consumed (m : DMode) (src : Bytes) (its : List Item) (m' : DMode) (rest : Bytes)
+    (h : stepDec m src = (its, .ok (m', rest))) :
+    1 ≤ (callsOf its).length ∧ (callsOf its).length + rest.length ≤ src.length := by
+  obtain ⟨pre, _, rfl, _, h1, h2, _⟩ := stepDec_ok h
+  exact ⟨h1, by simp; omega⟩
+
+/-- … and a failing instruction delivered no more calls (complete repetitions) than there were bytes. -/
+theorem failing_instruction_calls_le (m : DMode) (src : Bytes) (its : List Item) (e : DecErr)
+    (h : stepDec m src = (its, .error e)) : (callsOf its).length ≤ src.length :=
+  (stepDec_error h).1
+set_option maxRecDepth 100000 in
+example : (stepDec .drawing [0x21, 0x90, 0x90, 0xa0]).2 = .error .invalidNumber ∧
+    (callsOf (stepDec .drawing [0x21, 0x90, 0x90, 0xa0]).1).length = 1 := by decide +kernel
+
+/-- Whole input, the true bound: Reset is paid for by the four magic bytes plus the chunk-count byte,
+    every other call by at least one byte of its own: `#calls + 4 ≤ len(src)` whenever anything is
+    delivered.  (Tight: magic, `00`, then n one-byte `Set CSEL` opcodes deliver n+1 calls from n+5
+    bytes.)  Holds for failing decodes too. -/
+theorem calls_linear (opts : List DecodeOption) (src : Bytes) (h : (decode opts src).1 ≠ []) :
+    (decode opts src).1.length + 4 ≤ src.length := decode_calls_bound opts src h
+set_option maxRecDepth 100000 in
+example : (decode [] exIcon).1 ≠ [] := by decide +kernel
+set_option maxRecDepth 100000 in
+example : (decode [] [0x89, 0x49, 0x56, 0x47, 0x00, 0x01, 0x02]).1.length + 4 = 7 := by decide +kernel
+
+/-! ## nothing before the metadata is valid; Reset first and only once -/
+
+/-- Clause "nothing is delivered unless the magic and every metadata chunk were valid; the first
+    delivered call is Reset": if anything is delivered then the metadata section is valid, the first
+    call is Reset with the viewBox and palette the metadata (after the options) determine, and no
+    later call is a Reset. -/
+theorem no_early_delivery (opts : List DecodeOption) (src : Bytes) (c : Call F32) (cs : List (Call F32))
+    (h : (decode opts src).1 = c :: cs) :
+    ∃ hdr m rest, MetaOk {} src hdr m rest ∧
+      c = .reset (applyOptions m opts).viewBox (applyOptions m opts).palette ∧
+      ∀ c' ∈ cs, isReset c' = false :=
+  decode_no_early_delivery opts src c cs h
+set_option maxRecDepth 100000 in
+example : ∃ c cs, (decode [] exIcon).1 = c :: cs :=
+  ⟨(decode [] exIcon).1.head!, (decode [] exIcon).1.tail, by decide +kernel⟩
+
+/-- Conversely: an invalid magic, chunk count or chunk makes Decode fail having delivered nothing. -/
+theorem invalid_metadata_delivers_nothing (opts : List DecodeOption) (src : Bytes)
+    (h : ¬ ∃ hdr m rest, MetaOk {} src hdr m rest) : ∃ e, decode opts src = ([], some e) :=
+  decode_of_not_metaOk h opts
+set_option maxRecDepth 100000 in
+example : ¬ ∃ hdr m rest, MetaOk {} [0x89, 0x49, 0x56, 0x47, 0x02, 0x0a, 0x00, 0x50] hdr m rest :=
+  fun h => by
+    have := (decodeViewBox_ok_iff _).2 h
+    revert this
+    decide +kernel
+
+/-- … and a valid metadata section always leads to exactly `Reset :: (calls of the instruction loop)`. -/
+theorem valid_metadata_delivers_reset (opts : List DecodeOption) (src : Bytes) (hdr : List Item)
+    (m : Metadata) (rest : Bytes) (h : MetaOk {} src hdr m rest) :
+    decode opts src =
+      (.reset (applyOptions m opts).viewBox (applyOptions m opts).palette ::
+        callsOf (loop (rest.length + 1) .styling rest).1, (loop (rest.length + 1) .styling rest).2) :=
+  decode_of_metaOk h opts
+set_option maxRecDepth 100000 in
+example : ∃ hdr m rest, MetaOk {} exIcon hdr m rest :=
+  (decodeViewBox_ok_iff _).1 (by decide +kernel)
+
+/-! ## prefix monotonicity -/
+
+/-- A successfully decoded instruction decodes identically, whatever follows it. -/
+theorem instruction_stable (m : DMode) (src : Bytes) (its : List Item) (m' : DMode) (rest : Bytes)
+    (h : stepDec m src = (its, .ok (m', rest))) (k : Bytes) :
+    stepDec m (src ++ k) = (its, .ok (m', rest ++ k)) := by
+  obtain ⟨pre, _, _, _, _, _, _, _, happ⟩ := stepDec_ok h
+  exact happ k
+
+/-- A failing instruction delivered only complete repetitions, each of which is delivered again
+    when the input is extended. -/
+theorem failing_instruction_prefix (m : DMode) (src : Bytes) (its : List Item) (e : DecErr)
+    (h : stepDec m src = (its, .error e)) (k : Bytes) :
+    callsOf its <+: callsOf (stepDec m (src ++ k)).1 :=
+  (stepDec_error h).2.2 k
+
+/-- Clause "the calls delivered for any prefix of an input are a prefix of the calls delivered for
+    the whole input" — for every input `a ++ b`, every split point (inside the magic, inside a chunk,
+    between instructions, inside an instruction, inside a repetition) and every option list. -/
+theorem prefix_monotone (opts : List DecodeOption) (a b : Bytes) :
+    (decode opts a).1 <+: (decode opts (a ++ b)).1 := decode_prefix_monotone opts a b
+set_option maxRecDepth 100000 in
+example : (decode [] (exIcon.take 22)).1.length = 3 ∧ (decode [] (exIcon.take 22)).2 = some .invalidNumber ∧
+    (decode [] (exIcon.take 22 ++ exIcon.drop 22)).1.length = 5 := by decide +kernel
+
+/-!
+## Not proved in this file
+
+* "at most four curve segments per drawing operation" is a statement about the renderer's arc
+  conversion (`Ivg/Model/Arc.lean`, `Renderer.lean`), not about the decoder model; it is not
+  addressed here.  What is proved is the decoder side of the linearity claim: the number of
+  Destination calls is at most `len(src) - 4`.
+* "without panicking / leave the input unmodified / either succeed or return a DecodeError" hold by
+  construction of the model (total pure functions into `Option DecErr`); the statement about the Go
+  code rests on the differential suite and on `Ivg.Gen.Tie.param_writes_frame`,
+  `Ivg.Gen.Tie.errorStrings_tie`.
+* Decoding "into a Renderer or an Encoder": the model delivers to an abstract recorder; composition
+  with the renderer/encoder models is the subject of other properties.
+-/
+
 end Ivg.Props.C02
-#obligations C02 [Ivg.Gen.Tie.drawOps_tie, Ivg.Gen.Tie.magic_tie, Ivg.Gen.Tie.errorStrings_tie]
+
+#obligations C02 [
+  Ivg.Props.C02.loop_terminates, Ivg.Props.C02.chunks_terminate, Ivg.Props.C02.loop_unfold,
+  Ivg.Props.C02.instruction_consumes, Ivg.Props.C02.chunk_consumes,
+  Ivg.Props.C02.instruction_calls_le_consumed, Ivg.Props.C02.failing_instruction_calls_le,
+  Ivg.Props.C02.calls_linear, Ivg.Props.C02.no_early_delivery,
+  Ivg.Props.C02.invalid_metadata_delivers_nothing, Ivg.Props.C02.valid_metadata_delivers_reset,
+  Ivg.Props.C02.instruction_stable, Ivg.Props.C02.failing_instruction_prefix,
+  Ivg.Props.C02.prefix_monotone,
+  Ivg.Gen.Tie.drawOps_tie, Ivg.Gen.Tie.magic_tie, Ivg.Gen.Tie.errorStrings_tie,
+  Ivg.Gen.Tie.param_writes_frame]
